@@ -98,4 +98,6 @@ let eng_impl_view (obs : ostring list) : ostring list =
   try project (List.map Tokparse.parse_tok obs) with Failure e -> ("UNPARSABLE:" ^ e) :: obs
 
 let register (reg : ostring -> (ostring list -> ostring list) -> (ostring list -> ostring list -> ostring option) -> unit) =
-  reg "eng" eng_model (fun a obs -> Monitors_engine.check a obs)
+  reg "eng" eng_model (fun a obs -> Monitors_engine.check a obs);
+  (* scenarios outside the model's script language: no model observation (the driver does not compare), token clauses only *)
+  reg "engx" (fun _ -> ["MONITOR-ONLY"]) (fun a obs -> Monitors_engine.check_local a obs)
